@@ -244,6 +244,22 @@ func c05Short[V univers.Version[V], VR univers.VersionRange[V]](e univers.Ecosys
 	vv.Assert(r.Contains(vp) == want, "C05: shorthand range does not denote its documented interval")
 }
 
+// c05ShortHist: c05Short after the same construct has been parsed with the other arities of the
+// same base (the meaning of a range text does not depend on what was parsed earlier).
+func c05ShortHist[V univers.Version[V], VR univers.VersionRange[V]](e univers.Ecosystem[V, VR], construct, xs, ys, zs, pre, probe string, arity int) {
+	for a := 1; a <= 3; a++ {
+		if a == arity {
+			continue
+		}
+		if sp := c05Spec(e.Name(), construct, xs, ys, zs, pre, a); sp.ok {
+			if r, err := e.NewVersionRange(sp.rng); err == nil {
+				_ = r.String()
+			}
+		}
+	}
+	c05Short(e, construct, xs, ys, zs, pre, probe, arity)
+}
+
 // c05Bracket: nuget / maven interval notation. kind: "[a]", "[a,b]", "(a,b)", "[a,b)", "(a,b]",
 // "[a,)", "(a,)", "(,b]", "(,b)", "a" (bare).
 func c05Bracket[V univers.Version[V], VR univers.VersionRange[V]](e univers.Ecosystem[V, VR], kind, a, b, probe string) {
